@@ -34,6 +34,7 @@ def default_params(tier, **over):
         "force": [],          # features forced on
         "forbid": [],         # features forced off
         "neg_den": 5,         # 1/neg_den of the programs may contain error-producing shapes
+        "tryfail": 6,         # 1/tryfail of the components try a stand-alone render that fails, and carry on
     }
     p.update(over)
     return p
@@ -96,7 +97,10 @@ class Gen:
         for i in reversed(range(n)):
             self.comps[i] = self.compdef(i, share)
         page_scope = {"str": ["pa", "pb"], "list": ["pl"], "names": ["pn"], "bool": ["pt", "pf"], "aliases": []}
-        ctx = {"pa": "PA", "pb": "PB", "pl": [f"e{k}" for k in range(ch.draw(4, "len_pl"))],
+        pl = [f"e{k}" for k in range(ch.draw(4, "len_pl"))]
+        if pl and ch.chance(1, 3, "pl_falsy"):
+            pl[ch.draw(len(pl), "pl_falsy_pos")] = ""   # a falsy element: conditions on the loop variable vary per iteration
+        ctx = {"pa": "PA", "pb": "PB", "pl": pl,
                "pn": ["a", "b"][: 1 + ch.draw(2, "len_pn")], "pt": True, "pf": False}
         if P.get("collide"):
             for nm in POOL:
@@ -173,6 +177,8 @@ class Gen:
                         # otherwise callers are responsible (see comp_node) -- keep it simple: give a default
                         has_default = not ch.chance(1, 3, "inj_nodefault")
                     cd["injects"].append([k, has_default])
+        # user code that renders another component on its own inside get_context_data, and falls back when that fails
+        cd["tryfail"] = bool(self.P.get("tryfail")) and ch.chance(1, self.P["tryfail"], "tryfail")
         if self.P.get("assets"):
             self.assets(cd, i)
         if self.P.get("collide"):
@@ -194,10 +200,12 @@ class Gen:
         used = {c["cls"] for c in self.comps if c is not None}
         pool = [n for n in CLASS_NAMES if n not in used] or [f"Extra{i}"]
         cd["cls"] = pool[ch.weighted([6] + [1] * (len(pool) - 1), "clsname")]
-        jk = ch.weighted([3, 5, 1], "js_kind")       # none / code / blank
-        cd["js"] = [None, 'console.log("JS_%s");' % label, "  \n "][jk]
-        ck = ch.weighted([3, 5, 1], "css_kind")
-        cd["css"] = [None, ".%s { color: red; }" % label, " "][ck]
+        jk = ch.weighted([3, 5, 1, 2], "js_kind")       # none / code / blank / code with backslashes
+        cd["js"] = [None, 'console.log("JS_%s");' % label, "  \n ",
+                    'var re_%s = /\\d+\\n/g; console.log("JS\\1_%s\\\\");' % (label, label)][jk]
+        ck = ch.weighted([3, 5, 1, 2], "css_kind")
+        cd["css"] = [None, ".%s { color: red; }" % label, " ",
+                     '.%s::before { content: "\\201C\\g<0>"; }' % label][ck]
         cd["media_js"] = ch.subset(MEDIA_JS, "media_js", 1, 3)
         files = ch.subset(MEDIA_CSS, "media_css", 1, 3)
         if files and ch.chance(1, 3, "css_dict"):
@@ -355,7 +363,7 @@ class Gen:
             kwargs.append(["s", self.expr(scope, "kw_s_val")])
         if scope["list"] and ch.chance(1, 2, "kw_l"):
             kwargs.append(["l", ["var", ch.choice(scope["list"], "kw_l_val")]])
-        only = self.on("only") and ch.chance(1, 4, "only")
+        only = self.on("only") and ch.chance(1, self.P.get("only_den", 4), "only")
         dyn = self.on("dynamic") and ch.chance(1, 3, "dyn")
         slots = cd["slots"]
         names = []
@@ -401,10 +409,13 @@ class Gen:
         sc = scope
         if self.on("aliases"):
             if ch.chance(1, 3, "data_alias"):
-                data_alias = self.newvar("da")
+                data_alias = ch.choice(POOL, "data_alias_pool") if (self.P.get("collide") and ch.chance(1, 3, "data_alias_collide")) \
+                    else self.newvar("da")
                 keys = list(slot_decl[3]) if slot_decl else []
                 sc = dict(sc, aliases=sc["aliases"] + [[data_alias, "data", keys]])
             if ch.chance(1, 3, "default_alias"):
+                # (the default alias keeps a unique name: a pool name could be read from inside another component's
+                # fill, which is the excluded "lazy slot reference passed on" shape, see DESIGN.md 9.2)
                 default_alias = self.newvar("df")
                 sc = dict(sc, aliases=sc["aliases"] + [[default_alias, "default", []]])
         wrap = 0
@@ -425,7 +436,11 @@ class Gen:
             sc2 = dict(sc, str=sc["str"] + [x])
             body = self.nodes(sc2, owner, depth + 1, in_fill=True)
             return ["for", x, lst, [["fill", ["var", x], data_alias, default_alias, body]]]
-        if wrap == 0 and self.P.get("collide") and getattr(self, "mode", None) == "django" and ch.chance(1, 3, "fill_with"):
+        if wrap == 0 and self.P.get("collide") and getattr(self, "mode", None) == "django" and not self.on("slot_in_fill") \
+                and ch.chance(1, 3, "fill_with"):
+            # (not combined with slots inside fills: there the captured variables of sibling fills reach each other
+            # through shared context objects - the mechanism of open finding F15 - in ways its quirk model does not
+            # reproduce exactly, so the diagnosis could not tell it from a new defect)
             # {% with %} between the component tag and the fill (django mode only: in isolated mode statement, docs and
             # code disagree among themselves about this shape, so it is not generated there)
             wname = ch.choice(POOL, "fill_with_name")
@@ -436,7 +451,8 @@ class Gen:
         body = self.nodes(sc, owner, depth + 1, in_fill=True) if ch.chance(5, 6, "fillbody") else []
         f = ["fill", ["lit", name], data_alias, default_alias, body]
         if wrap == 1:
-            cond = ch.choice(scope["bool"], "fillcond")
+            loopvars = [v for v in scope["str"] if v.startswith("x") or v in POOL]
+            cond = ch.choice(scope["bool"] + loopvars[-2:], "fillcond")
             return ["if", cond, [f], []]
         if wrap == 2 and scope["list"]:
             x = ch.choice(POOL, "fillloop_pool") if (self.P.get("collide") and ch.chance(1, 2, "fillloop_collide")) else self.newvar("x")
